@@ -162,7 +162,7 @@ func RandomProgram(seed uint64, o RandomOpts) *Program {
 			oneofTaken[g] = true
 			allOneofs = append(allOneofs, g)
 			m.Oneofs = append(m.Oneofs, g)
-			nb := 2 + r.n(2)
+			nb := 1 + r.n(3) // a group may have a single branch
 			for b := 0; b < nb; b++ {
 				f := Field{Name: fieldName(), Num: nextNum(), Oneof: g}
 				switch x := r.n(10); {
